@@ -332,6 +332,9 @@ def _eval_const(expr: str, env: dict):
 
     def _apply_bin(opcls, a, b):
         if opcls is ast.Add and isinstance(a, str) and isinstance(b, str):
+            if len(a) + len(b) > 4096:
+                # repeated doubling (s = s + s) would otherwise grow without bound
+                raise ValueError("constant too large to fold")
             return a + b
         ops = {
             ast.Add: op.add, ast.Sub: op.sub, ast.Mult: op.mul, ast.Div: op.truediv,
